@@ -21,20 +21,24 @@ EXTENDS Cfdp0
 CONSTANTS Cfg,         \* configuration record of the transaction (see MC modules)
           MaxFaults,   \* link fault budget (drop, duplicate, reorder, hold)
           Cmds,        \* user commands that may be issued, each at most once: <<entity, command>>
-          KnownSigs    \* signatures of recorded findings tolerated by the as-is invariants
+          KnownSigs,   \* signatures of recorded findings tolerated by the as-is invariants
+          Blackouts,   \* directions of the link that may go dark for good: subset of {"c2r", "c2s"}
+          Injects      \* PDUs an adversarial peer may put on the link, each once: sequence of [ch, pdu]
 
 VARIABLES s, r, w,     \* sender, receiver, receiver's world (destination file, directory tree)
           c2r, c2s,    \* the two directions of the link (sequences of PDUs)
           rinc,        \* number of receive transactions spawned so far for this id
           used,        \* user commands already issued
           nf,          \* link faults so far
+          black,       \* directions that have gone dark
+          inj,         \* indices of Injects already used
           o,           \* observation state (Props)
           ev,          \* the last event
           viol,        \* properties violated by the last event: set of <<tag, signature>>
           hist         \* the actions taken so far (hidden from the fingerprint by View)
 
-vars == <<s, r, w, c2r, c2s, rinc, used, nf, o, ev, viol, hist>>
-View == <<s, r, w, c2r, c2s, rinc, used, nf, o, viol>>
+vars == <<s, r, w, c2r, c2s, rinc, used, nf, black, inj, o, ev, viol, hist>>
+View == <<s, r, w, c2r, c2s, rinc, used, nf, black, inj, o, viol>>
 
 C == Cfg
 
@@ -66,6 +70,8 @@ Init ==
   /\ rinc = 0
   /\ used = {}
   /\ nf = 0
+  /\ black = {}
+  /\ inj = {}
   /\ o = ObsInit(C)
   /\ ev = [a |-> "Init"]
   /\ viol = {}
@@ -77,7 +83,7 @@ S_Send ==
   /\ LET x == SSend(s, C) IN
      /\ s' = x.s
      /\ c2r' = c2r \o x.out
-     /\ UNCHANGED <<r, w, c2s, rinc, used, nf>>
+     /\ UNCHANGED <<r, w, c2s, rinc, used, nf, black, inj>>
      /\ Finish(MkEv("S_Send", "", 0, 0, "", x.res, x.out, x.ind, NoPdu, x.s, r, w, rinc, Len(c2r'), Len(c2s)),
                Act("S_Send", "", 0, 0, ""))
 
@@ -87,7 +93,7 @@ R_Send ==
      /\ r' = x.r
      /\ w' = x.w
      /\ c2s' = c2s \o x.out
-     /\ UNCHANGED <<s, c2r, rinc, used, nf>>
+     /\ UNCHANGED <<s, c2r, rinc, used, nf, black, inj>>
      /\ Finish(MkEv("R_Send", "", 0, 0, "", x.res, x.out, x.ind, NoPdu, s, x.r, x.w, rinc, Len(c2r), Len(c2s')),
                Act("R_Send", "", 0, 0, ""))
 
@@ -95,7 +101,7 @@ S_Timeout ==
   /\ s.alive /\ SUntil(s, C) = 0
   /\ LET x == STimeout(s, C) IN
      /\ s' = x.s
-     /\ UNCHANGED <<r, w, c2r, c2s, rinc, used, nf>>
+     /\ UNCHANGED <<r, w, c2r, c2s, rinc, used, nf, black, inj>>
      /\ Finish(MkEv("S_Timeout", "", 0, 0, "", x.res, <<>>, x.ind, NoPdu, x.s, r, w, rinc, Len(c2r), Len(c2s)),
                Act("S_Timeout", "", 0, 0, ""))
 
@@ -104,7 +110,7 @@ R_Timeout ==
   /\ LET x == RTimeout(r, w, C) IN
      /\ r' = x.r
      /\ w' = x.w
-     /\ UNCHANGED <<s, c2r, c2s, rinc, used, nf>>
+     /\ UNCHANGED <<s, c2r, c2s, rinc, used, nf, black, inj>>
      /\ Finish(MkEv("R_Timeout", "", 0, 0, "", x.res, <<>>, x.ind, NoPdu, s, x.r, x.w, rinc, Len(c2r), Len(c2s)),
                Act("R_Timeout", "", 0, 0, ""))
 
@@ -114,6 +120,7 @@ Without(q, i) == SubSeq(q, 1, i - 1) \o SubSeq(q, i + 1, Len(q))
 \* deliver the i-th PDU in flight towards the receiver (i > 1: it overtakes, a link fault).
 \* The daemon spawns a receive transaction for a PDU that finds none (lib.rs:447-470, 494-521).
 DeliverR(i) ==
+  /\ "c2r" \notin black
   /\ i \in 1 .. Len(c2r)
   /\ i > 1 => nf < MaxFaults
   /\ LET p == c2r[i]
@@ -127,12 +134,13 @@ DeliverR(i) ==
         /\ c2r' = Without(c2r, i)
         /\ rinc' = inc
         /\ nf' = IF i > 1 THEN nf + 1 ELSE nf
-        /\ UNCHANGED <<s, c2s, used>>
+        /\ UNCHANGED <<s, c2s, used, black, inj>>
         /\ Finish(MkEv("Deliver", "c2r", i, 0, "", x.res, <<>>, ind, p, s, x.r, x.w, inc, Len(c2r'), Len(c2s)),
                   Act("Deliver", "c2r", i, 0, ""))
 
 \* towards the sender; a PDU for a sender that has ended is discarded (lib.rs:476-480, 523-533)
 DeliverS(i) ==
+  /\ "c2s" \notin black
   /\ i \in 1 .. Len(c2s)
   /\ i > 1 => nf < MaxFaults
   /\ LET p == c2s[i]
@@ -140,39 +148,59 @@ DeliverS(i) ==
      IN /\ s' = x.s
         /\ c2s' = Without(c2s, i)
         /\ nf' = IF i > 1 THEN nf + 1 ELSE nf
-        /\ UNCHANGED <<r, w, c2r, rinc, used>>
+        /\ UNCHANGED <<r, w, c2r, rinc, used, black, inj>>
         /\ Finish(MkEv("Deliver", "c2s", i, 0, "", x.res, <<>>, x.ind, p, x.s, r, w, rinc, Len(c2r), Len(c2s')),
                   Act("Deliver", "c2s", i, 0, ""))
 
+\* on a dark direction every PDU is lost (only the head is dropped: the order is immaterial)
 Drop(ch, i) ==
-  /\ nf < MaxFaults
+  /\ IF ch \in black THEN i = 1 ELSE nf < MaxFaults
   /\ i \in 1 .. Len(IF ch = "c2r" THEN c2r ELSE c2s)
   /\ c2r' = IF ch = "c2r" THEN Without(c2r, i) ELSE c2r
   /\ c2s' = IF ch = "c2s" THEN Without(c2s, i) ELSE c2s
-  /\ nf' = nf + 1
-  /\ UNCHANGED <<s, r, w, rinc, used>>
+  /\ nf' = IF ch \in black THEN nf ELSE nf + 1
+  /\ UNCHANGED <<s, r, w, rinc, used, black, inj>>
   /\ Finish(MkEv("Drop", ch, i, 0, "", "ok", <<>>, <<>>, NoPdu, s, r, w, rinc, Len(c2r'), Len(c2s')),
             Act("Drop", ch, i, 0, ""))
 
 Ins(q, i) == SubSeq(q, 1, i) \o <<q[i]>> \o SubSeq(q, i + 1, Len(q))
 Dup(ch, i) ==
-  /\ nf < MaxFaults
+  /\ nf < MaxFaults /\ ch \notin black
   /\ i \in 1 .. Len(IF ch = "c2r" THEN c2r ELSE c2s)
   /\ c2r' = IF ch = "c2r" THEN Ins(c2r, i) ELSE c2r
   /\ c2s' = IF ch = "c2s" THEN Ins(c2s, i) ELSE c2s
   /\ nf' = nf + 1
-  /\ UNCHANGED <<s, r, w, rinc, used>>
+  /\ UNCHANGED <<s, r, w, rinc, used, black, inj>>
   /\ Finish(MkEv("Dup", ch, i, 0, "", "ok", <<>>, <<>>, NoPdu, s, r, w, rinc, Len(c2r'), Len(c2s')),
             Act("Dup", ch, i, 0, ""))
+
+\* the direction goes dark for good (the peer falls silent / the link is cut)
+Blackout(ch) ==
+  /\ ch \in Blackouts \ black
+  /\ black' = black \cup {ch}
+  /\ UNCHANGED <<s, r, w, c2r, c2s, rinc, used, nf, inj>>
+  /\ Finish(MkEv("Blackout", ch, 0, 0, "", "ok", <<>>, <<>>, NoPdu, s, r, w, rinc, Len(c2r), Len(c2s)),
+            Act("Blackout", ch, 0, 0, ""))
+
+\* an adversarial peer (or a stray source) puts a PDU on the link
+Inject(k) ==
+  /\ k \in (1 .. Len(Injects)) \ inj
+  /\ inj' = inj \cup {k}
+  /\ c2r' = IF Injects[k].ch = "c2r" THEN Append(c2r, Injects[k].pdu) ELSE c2r
+  /\ c2s' = IF Injects[k].ch = "c2s" THEN Append(c2s, Injects[k].pdu) ELSE c2s
+  /\ UNCHANGED <<s, r, w, rinc, used, nf, black>>
+  /\ Finish(MkEv("Inject", Injects[k].ch, k, 0, "", "ok", <<>>, <<>>, Injects[k].pdu, s, r, w, rinc, Len(c2r'), Len(c2s')),
+            Act("Inject", Injects[k].ch, k, 0, ""))
 
 \* ------------------------------------------------------------ time
 Quiet == ~SCan(s) /\ ~RCan(r) /\ SUntil(s, C) # 0 /\ RUntil(r, C) # 0
 NextDeadline == UMin(SUntil(s, C), RUntil(r, C))
-BudgetLeft == nf < MaxFaults \/ used # Cmds
+BudgetLeft == nf < MaxFaults \/ used # Cmds \/ black # Blackouts \/ inj # 1 .. Len(Injects)
 
 Tick(d) ==
   /\ Quiet
   /\ (c2r = <<>> /\ c2s = <<>>) \/ nf < MaxFaults        \* a PDU still in flight is being delayed
+  /\ ("c2r" \in black => c2r = <<>>) /\ ("c2s" \in black => c2s = <<>>)
   /\ s.alive \/ r.alive
   /\ IF NextDeadline = Never
      THEN /\ d = Bound(C) + 1                           \* nothing will ever wake anybody up
@@ -181,7 +209,7 @@ Tick(d) ==
   /\ s' = STick(s, d)
   /\ r' = RTick(r, d)
   /\ nf' = IF c2r = <<>> /\ c2s = <<>> THEN nf ELSE nf + 1
-  /\ UNCHANGED <<w, c2r, c2s, rinc, used>>
+  /\ UNCHANGED <<w, c2r, c2s, rinc, used, black, inj>>
   /\ Finish(MkEv("Tick", "", 0, d, "", "ok", <<>>, <<>>, NoPdu, s', r', w, rinc, Len(c2r), Len(c2s)),
             Act("Tick", "", 0, d, ""))
 
@@ -192,7 +220,7 @@ S_Cmd(c) ==
   /\ LET x == SCmd(s, C, c) IN
      /\ s' = x.s
      /\ used' = used \cup {<<"S", c>>}
-     /\ UNCHANGED <<r, w, c2r, c2s, rinc, nf>>
+     /\ UNCHANGED <<r, w, c2r, c2s, rinc, nf, black, inj>>
      /\ Finish(MkEv("S_Cmd", "", 0, 0, c, x.res, <<>>, x.ind, NoPdu, x.s, r, w, rinc, Len(c2r), Len(c2s)),
                Act("S_Cmd", "", 0, 0, c))
 
@@ -203,7 +231,7 @@ R_Cmd(c) ==
      /\ r' = x.r
      /\ w' = x.w
      /\ used' = used \cup {<<"R", c>>}
-     /\ UNCHANGED <<s, c2r, c2s, rinc, nf>>
+     /\ UNCHANGED <<s, c2r, c2s, rinc, nf, black, inj>>
      /\ Finish(MkEv("R_Cmd", "", 0, 0, c, x.res, <<>>, x.ind, NoPdu, s, x.r, x.w, rinc, Len(c2r), Len(c2s)),
                Act("R_Cmd", "", 0, 0, c))
 
@@ -214,6 +242,8 @@ Next ==
   \/ \E i \in 1 .. Len(c2r) : DeliverR(i)
   \/ \E i \in 1 .. Len(c2s) : DeliverS(i)
   \/ \E ch \in {"c2r", "c2s"} : \E i \in 1 .. (IF ch = "c2r" THEN Len(c2r) ELSE Len(c2s)) : Drop(ch, i) \/ Dup(ch, i)
+  \/ \E ch \in {"c2r", "c2s"} : Blackout(ch)
+  \/ \E k \in 1 .. Len(Injects) : Inject(k)
   \/ \E d \in 1 .. (Bound(C) + 1) : Tick(d)
   \/ \E c \in CmdNames : S_Cmd(c) \/ R_Cmd(c)
 
@@ -228,5 +258,7 @@ OnlyKnown == \A x \in viol : x[2] \in KnownSigs
 \* ------------------------------------------------------------ script emission
 \* evaluated for every generated successor: one line per edge of the bounded graph
 EmitEdge == PrintT(<<"EDGE", hist'>>)
-EmitViol == viol' # {} => PrintT(<<"MVIOL", viol', hist'>>)
+\* model violations that are not recorded findings (the exploration goes on)
+EmitUnknown == (\E x \in viol' : x[2] \notin KnownSigs) => PrintT(<<"MVIOL", viol', hist'>>)
+EmitAll == EmitEdge /\ EmitUnknown
 =============================================================================
